@@ -44,6 +44,14 @@ CLAIMED = {
         technique='Lean 4 iff theorem between the transcribed check_valid and the declarative rule set + refutation of the full-strength iff (finding F6) + corruption correspondence',
         text='check_valid (as decision logic over an abstraction of the content) is proved to accept iff the rules hold with the count rule imposed on multiplicities > 1; each rule violation is proved rejected; the full-strength iff is refuted by a kernel-checked witness (F6) and proved outside multiplicity-1 classes. All single and sampled double corruptions of generated extensions are run through from_json and NiftiWrapper(img) and through the model.',
         design='DESIGN.md §7 C10', note=BASE_NOTE + ' The abstraction function (content -> Content record) is part of the trusted harness.'),
+    'C16': dict(
+        technique='Lean 4 theorems about a literal List-Char model of _parse_phoenix_line / parse_phoenix_prot + differential correspondence on generated grammar lines and the real protocol text',
+        text='Proved for all inputs: blank and comment-only lines give None, lines without = raise, unknown protocol key raises, the protocol loop stops at the first malformed line, later duplicates overwrite and other keys are untouched, strip/find lemmas; kernel-evaluated instances for every value kind x dialect (including # and = inside quotes, trailing comments) and for the malformed variants; F8 (hex tried before float) is a kernel-checked witness. The unbounded round-trip theorem over the whole line grammar is not yet proved (stated in DESIGN.md); the grammar is covered by the correspondence (model = implementation on every generated line) and by the oracle.',
+        design='DESIGN.md §7 C16', note=BASE_NOTE + ' CPython int()/float() numeric conversion of an accepted lexeme is trusted.'),
+    'C17': dict(
+        technique='Lean 4 theorems: 48x48 orientation table and 216 letter triples by decide +kernel lifted to all strings / shapes / zooms by lemmas + exhaustive 48x48 correspondence',
+        text='For every string the voxel-order check passes iff the upper-cased string is one of the 48 codes; for all 48x48 start/requested orientations ornt_transform succeeds and the reordered orientation is the requested one; for each of the 48 transforms and every shape and in-range index the returned matrix maps output indices to the input index apply_orientation used; the output affine spells the code; bad code / <3-D / non-4x4 raise. All 2304 pairs + oblique rotations + strings of length 0-4 are run against the implementation every run.',
+        design='DESIGN.md §7 C17', note=BASE_NOTE + ' nibabel io_orientation/apply_orientation/inv_ornt_aff are parameters with executable reference versions validated by the suite; oblique affines only through predicates.'),
 }
 
 ALL = ['C%02d' % i for i in range(1, 21)]
